@@ -43,6 +43,9 @@ def _(type_parameters: "Seq[TypeParameter]", types: "Any", type_var_map: "Any",
         and implies(new.variance.value == 2, variance_choices[t_param][1]))))
     site("WildCardType", "declared-variance", implies(t_param.variance.value == 1, new.variance.value != 2)
          and implies(t_param.variance.value == 2, new.variance.value != 1))
+    # `i` must still be the position of the parameter being instantiated (the later parameters are type_parameters[i+1:])
+    site("WildCardType", "index-is-current-parameter", 0 <= i and i < len(type_parameters)
+         and same(type_parameters[i], t_param))
     site("WildCardType", "not-mentioned-in-later-bound", not exists(lambda k: (
         i + 1 <= k and k < len(type_parameters) and type_parameters[k].has_bound_of(t_param))))
     site("WildCardType", "projects-a-usable-type", not isinstance(new.bound, TypeConstructor))
